@@ -8,6 +8,8 @@ import H2V.Lemmas.ConnResetPSpec
 set_option linter.unusedSectionVars false
 namespace H2V.Lemmas.ConnResetP
 open H2V H2V.Model H2V.Model.Conn
+set_option allowUnsafeReducibility true in
+attribute [local reducible] Streams.stream Store.getD'
 
 /-- the stream owes an RST_STREAM with code `r` and it is next in line -/
 def Owes (st : Stream) (r : Reason) : Prop :=
@@ -40,5 +42,132 @@ theorem done_rank {st : Stream} (h1 : isErr st.state = true) (h2 : resetCount st
   unfold rank
   unfold isErr at h1; simp only [Bool.and_eq_true, Bool.not_eq_true'] at h1
   simp [h1.1, h1.2, h2]
+
+theorem EmitSpec.mono_left {s sB s' : Streams} {f : Streams.OutFrame} (e : Evolves SRel RInv s.store sB.store)
+    (h : EmitSpec sB s' f) : EmitSpec s s' f := by
+  unfold EmitSpec at *
+  split
+  · next sid r =>
+    simp only at h
+    obtain ⟨s1, e1, e2, r⟩ := h
+    exact ⟨s1, e.trans e1, e2, r⟩
+  · trivial
+
+theorem emit_close {s sA sE s' : Streams} {id : Nat} {r : Reason} {st : Stream}
+    (evA : Evolves SRel RInv s.store sA.store) (hkA : KeysBelow sA.store)
+    (hgA : sA.store.get? id = some st) (hO : Owes st r)
+    (hE : Evolves SRel RInv sA.store sE.store)
+    (hyE : ∀ st1, sE.store.get? id = some st1 → RInv st → isErr st1.state = true ∧ resetCount st1.pendingSend = 0)
+    (hF : Evolves CoreEq (fun _ => True) sE.store s'.store) (hF' : Evolves SRel RInv sE.store s'.store) :
+    EmitSpec s s' (.reset st.id r) := by
+  refine ⟨sA.store, evA, hE.trans hF', id, st, hgA, rfl, hO, fun i st' h' => ?_⟩
+  rcases hF.back id st' h' with ⟨st1, h1, c⟩ | ⟨hge, _, _⟩
+  · have := hyE st1 h1 i
+    rw [c.state, c.pendingSend]; exact this
+  · exfalso
+    have h1 := hkA id st hgA
+    have h2 := hE.nk
+    omega
+
+theorem get?_of_stream_ne {s : Streams} {id : Nat} (h : (s.stream id).pendingSend ≠ [] ∨ (s.stream id).state.isIdle = false) :
+    s.store.get? id = some (s.stream id) := by
+  cases hg : s.store.get? id with
+  | some st => rw [stream_of_get? _ hg]
+  | none =>
+    rw [stream_of_none _ hg] at h
+    rcases h with h | h
+    · exact absurd rfl h
+    · cases h
+
+theorem popFrameC_emit (sd : Stream → Nat → Nat → Stream × List String × Bool)
+    (fuel : Nat) :
+    ∀ (s : Streams) (m : Nat) (s' : Streams) (f : Streams.OutFrame), KeysBelow s.store →
+      popFrameC sd fuel s m = (s', some f) → EmitSpec s s' f := by
+  induction fuel with
+  | zero => intro s m s' f _ h; rw [popFrameC_zero] at h; cases h
+  | succ n ih =>
+    intro s m s' f hkb h
+    rw [popFrameC_succ] at h
+    split at h
+    · cases h
+    · next sA id hq =>
+      have evA : Evolves SRel RInv s.store sA.store := by
+        have := qPop_ev (P := SRel) (N := RInv) (Evolves.refl s.store) .pendingSend
+        rw [hq] at this; exact this
+      have hkA : KeysBelow sA.store := evA.keysBelow hkb
+      dsimp only at h
+      -- a recursive call on a state reached from `sA`
+      have recur : ∀ sB : Streams, Evolves SRel RInv s.store sB.store → popFrameC sd n sB m = (s', some f) → EmitSpec s s' f :=
+        fun sB e hB => EmitSpec.mono_left e (ih sB m s' f (e.keysBelow hkb) hB)
+      split at h
+      · -- DATA
+        have dataTail : ∀ {X : Streams × Option Streams.OutFrame} {c1 c2 : Prop} [Decidable c1] [Decidable c2] {fr : Streams.OutFrame}
+            {sX : Streams},
+            (if c1 then popFrameC sd n sA m else if c2 then popFrameC sd n sA m else (sX, some fr)) = (s', some f) →
+            (∀ r sid, fr ≠ .reset sid r) → EmitSpec s s' f := by
+          intro X c1 c2 _ _ fr sX hh hfr
+          split at hh
+          · exact recur _ evA hh
+          · split at hh
+            · exact recur _ evA hh
+            · cases hh
+              unfold EmitSpec
+              split
+              · next sid r => exact absurd rfl (hfr r sid)
+              · trivial
+        split at h
+        · split at h
+          · exact recur _ (by ev) h
+          · exact dataTail (X := (s, none)) h (by intro r sid hc; cases hc)
+        · simp only [Bool.false_eq_true, if_false] at h
+          exact dataTail (X := (s, none)) h (by intro r sid hc; cases hc)
+      · -- HEADERS
+        cases h; exact trivial
+      · -- RST_STREAM at the head of the queue
+        next reason rest hps =>
+        cases h
+        have hgA : sA.store.get? id = some (sA.stream id) := get?_of_stream_ne (.inl (by rw [hps]; simp))
+        refine emit_close (sE := sA.modStream id fun st => { st with pendingSend := rest }) evA hkA hgA
+          (.inl ⟨rest, hps⟩) (by ev) ?_ (by ev) (by ev)
+        intro st1 h1 i
+        rw [modStream_store, Store.get?_mod' _ _ _ (by intro; rfl), if_pos rfl, hgA] at h1
+        simp only [Option.map_some, Option.some.injEq] at h1
+        subst h1
+        have hc := i.le
+        rw [hps] at hc
+        simp only [resetCount_cons, isResetFrame, if_true] at hc
+        have h1 : resetCount (sA.stream id).pendingSend = 1 := by rw [hps]; simp [isResetFrame]; omega
+        refine ⟨i.err h1, ?_⟩
+        show resetCount rest = 0
+        omega
+      · -- PUSH_PROMISE
+        split at h
+        · exact recur _ (by ev) h
+        · cases h; exact trivial
+      · -- empty queue
+        rename_i hnil
+        split at h
+        · rename_i reason hsr
+          cases h
+          have hgA : sA.store.get? id = some (sA.stream id) := get?_of_stream_ne (.inr (by
+            revert hsr; generalize (sA.stream id).state = x
+            rcases x with ⟨_ | _ | _ | _ | _ | _ | _⟩ <;> simp [State.getScheduledReset, State.isIdle]))
+          refine emit_close (sE := sA.modStreamW id fun st => st.setReset reason .library) evA hkA hgA
+            (.inr ⟨hnil, hsr⟩) (by ev) ?_ (by ev) (by ev)
+          intro st1 h1 _
+          rw [modStreamW_store, Store.get?_mod' _ _ _ (by intro x; exact setReset_key x _ _), if_pos rfl, hgA] at h1
+          simp only [Option.map_some, Option.some.injEq] at h1
+          subst h1
+          rw [setReset_state, setReset_pendingSend, hnil]
+          exact ⟨rfl, rfl⟩
+        · exact recur _ (by ev) h
+
+
+/-- **`pop_frame` and RST_STREAM**: when `pop_frame` returns `RST_STREAM(sid, r)`, some slab entry with
+    stream id `sid` owed exactly that frame at that moment, and afterwards (if it is still in the slab)
+    it is closed by an error with no RST_STREAM left in its queue. -/
+theorem popFrame_emit (fuel : Nat) (s : Streams) (m : Nat) (s' : Streams) (f : Streams.OutFrame)
+    (hkb : KeysBelow s.store) (h : Streams.popFrame fuel s m = (s', some f)) : EmitSpec s s' f := by
+  rw [popFrameC.eq] at h; exact popFrameC_emit _ fuel s m s' f hkb h
 
 end H2V.Lemmas.ConnResetP
